@@ -71,6 +71,8 @@
 #include <poll.h>
 #include <pthread.h>
 #include <sys/epoll.h>
+#include <sys/ioctl.h>
+#include <linux/sockios.h>
 #include <sys/socket.h>
 #include <sys/stat.h>
 #include <unistd.h>
@@ -693,6 +695,7 @@ struct PeerResult
 static std::atomic<std::size_t> g_peerRx{0};
 static std::atomic<std::size_t> g_peerWritten{0};
 static std::atomic<bool> g_peerDone{false};
+static std::atomic<int> g_peerFd{-1};
 static std::atomic<bool> g_peerAbort{false};
 static std::atomic<bool> g_peerWritesDone{false};
 
@@ -700,6 +703,7 @@ static std::atomic<bool> g_peerWritesDone{false};
 static void peerLoop(const Case &c, int fd, SSL_CTX *ctx, PeerResult &out)
 {
   SSL *ssl = nullptr;
+  g_peerFd.store(fd);
   if (c.peerRcvbuf > 0) setsockopt(fd, SOL_SOCKET, SO_RCVBUF, &c.peerRcvbuf, sizeof(int));
   int one = 1;
   setsockopt(fd, IPPROTO_TCP, TCP_NODELAY, &one, sizeof one);
@@ -775,6 +779,7 @@ static void peerLoop(const Case &c, int fd, SSL_CTX *ctx, PeerResult &out)
   if (closedByUs) out.note = "peer-closed";
   g_peerWritesDone.store(true);
   if (ssl) { if (out.eof != 2) SSL_shutdown(ssl); SSL_free(ssl); }
+  g_peerFd.store(-1);
   ::close(fd);
   g_peerDone.store(true);
 }
@@ -829,8 +834,9 @@ static void runCase(const Case &c, SSL_CTX *peerCli, SSL_CTX *peerSrv)
   g_ioThreadKnown = false; g_foreignThread.store(false);
   g_sessFd.store(-1); g_sessDead.store(false); g_lastMask = 0; g_registered = false;
   g_waitIdx = 0; g_sslPendK = 0; g_sslPendBuf = nullptr; g_movedRetries = 0;
-  g_peerRx.store(0); g_peerWritten.store(0); g_peerDone.store(false); g_peerAbort.store(false); g_peerWritesDone.store(false);
+  g_peerRx.store(0); g_peerWritten.store(0); g_peerDone.store(false); g_peerFd.store(-1); g_peerAbort.store(false); g_peerWritesDone.store(false);
 
+  auto caseStart = Clock::now();
   TransportConfig cfg;
   cfg.useEdgeTriggered = c.et;
   cfg.batching.enabled = c.batch;
@@ -979,20 +985,33 @@ static void runCase(const Case &c, SSL_CTX *peerCli, SSL_CTX *peerSrv)
   // so there the wait ends when nothing has moved for a while
   // "nothing moved for a long time" ends the wait as well (a stall is then reported): 4 s is three orders of magnitude above
   // the time any single step of a case takes
+  // Idle time is accumulated per poll and capped at 2 ms per poll, so a pause of the whole process / VM does not count as idleness.
   std::size_t lastRx = 0;
-  auto lastMove = Clock::now();
+  auto lastPoll = Clock::now();
+  long long idleUs = 0;
   bool idleOut = false;
   bool all = waitFor([&]
   {
     if (closedCb.load() > 0 || g_peerDone.load()) return true;
     if (g_peerRx.load() >= g_expTotal.load() && g_peerWritesDone.load() && deliveredN.load() >= g_peerWritten.load()) return true;
     std::size_t rx = g_peerRx.load() + deliveredN.load() + g_peerWritten.load();
-    if (rx != lastRx) { lastRx = rx; lastMove = Clock::now(); }
-    else if (Clock::now() - lastMove > milliseconds(c.lossy ? 150 : 4000)) { idleOut = !c.lossy; return true; }
+    auto now = Clock::now();
+    long long dt = std::chrono::duration_cast<microseconds>(now - lastPoll).count();
+    lastPoll = now;
+    if (rx != lastRx) { lastRx = rx; idleUs = 0; }
+    else idleUs += std::min<long long>(dt, 2000);
+    if (idleUs > (c.lossy ? 150000 : 4000000)) { idleOut = !c.lossy; return true; }
     return false;
   });
   if (idleOut) all = false;
   if (!all) stall = true;
+  long stallOutq = -1, stallPeerInq = -1;
+  if (stall)
+  {
+    int v = 0;
+    if (g_sessFd.load() >= 0 && !g_sessDead.load() && ::ioctl(g_sessFd.load(), SIOCOUTQ, &v) == 0) stallOutq = v;
+    if (g_peerFd.load() >= 0 && ::ioctl(g_peerFd.load(), FIONREAD, &v) == 0) stallPeerInq = v;
+  }
   // a peer-initiated close: give the engine a moment to notice it before stop() (either order is legal)
   if (g_peerDone.load() && closedCb.load() == 0)
   {
@@ -1044,10 +1063,11 @@ static void runCase(const Case &c, SSL_CTX *peerCli, SSL_CTX *peerSrv)
   std::printf("begin %s\n%s\n", c.id.c_str(), accLine.c_str());
   for (auto &s : g_segs) std::printf("seg %s\n", s.c_str());
   std::printf("fin peer_rx=%zu exp_total=%zu peer_diff=%lld peer_eof=%d dlv=%zu pw_written=%zu pw_total=%zu dlv_diff=%lld closed_cb=%d close_why=%s "
-              "connected_cb=%d accepted_cb=%d stall=%d foreign=%d peer_hs=%d moved=%d note=%s\n",
+              "connected_cb=%d accepted_cb=%d stall=%d foreign=%d peer_hs=%d moved=%d ms=%lld stall_outq=%ld stall_peer_inq=%ld note=%s\n",
               pr.rx.size(), expect.size(), firstDiff(pr.rx, expect), pr.eof, delivered.size(), pr.written, pwTotal,
               firstDiff(delivered, pwAll), closedCb.load(), closeWhy.c_str(), connectedCb.load(), acceptedCb.load(), stall ? 1 : 0,
-              g_foreignThread.load() ? 1 : 0, pr.hsOk ? 1 : 0, g_movedRetries, pr.note.empty() ? "-" : pr.note.c_str());
+              g_foreignThread.load() ? 1 : 0, pr.hsOk ? 1 : 0, g_movedRetries,
+              static_cast<long long>(std::chrono::duration_cast<milliseconds>(Clock::now() - caseStart).count()), stallOutq, stallPeerInq, pr.note.empty() ? "-" : pr.note.c_str());
   std::printf("end %s\n", c.id.c_str());
   std::fflush(stdout);
 }
